@@ -259,7 +259,8 @@ var _ rpc.Resources
 //@   callback cb requires[C04] arg0 != nil && (arg0.Error != nil || arg0.AccessResult != nil)
 //@   ensures[C06] old(s.access) == nil ==> predSubsStable() && s.access == nil && s.queueFlag == old(s.queueFlag) &&
 //@       (forall x *Subscription :: x != s ==> x.access == old(x.access) && x.flags == old(x.flags)) &&
-//@       s.flags == old(s.flags) | flagAccessCalled
+//@       s.flags == old(s.flags) | flagAccessCalled && s.reaccessThrottle == old(s.reaccessThrottle)
+//@   ensures[C19] t != nil ==> rescache.predThrottleInv(t)
 //@   safety[C15]
 
 //@ closure (*Subscription).loadAccess#1
@@ -945,15 +946,19 @@ var _ rpc.Resources
 // that throttle.
 //@ func (*Subscription).retryStaleAccess
 //@   requires s != nil && s.c != nil && predConnOK(s.c.(*wsConn))
+//@   assumes s.reaccessThrottle != nil ==> rescache.predThrottleInv(s.reaccessThrottle)
 //@   ensures[C05,C06] old(s.flags & flagAccessStale) == 0 ==> !result && s.flags == old(s.flags) && s.accessCallbacks == old(s.accessCallbacks) &&
 //@       s.access == old(s.access) && callcount("loadAccess") == old(callcount("loadAccess")) && invoked() == old(invoked())
 //@   ensures[C05,C06,C07] old(s.flags & flagAccessStale) != 0 ==> result && callcount("loadAccess") == old(callcount("loadAccess")) + len(cbs)
-//@   ensures[C19] old(s.flags & flagAccessStale) == 0 || old(s.flags & flagReaccess) != 0 ==> s.reaccessThrottle == old(s.reaccessThrottle)
+//@   ensures[C19] old(s.flags & flagAccessStale) == 0 ==> s.reaccessThrottle == old(s.reaccessThrottle)
+//@   ensures[C19] old(s.flags & flagReaccess) != 0 && old(s.access) == nil ==> s.reaccessThrottle == old(s.reaccessThrottle)
 //@   assert[C05,C06,C19] s.loadAccess#1: arg1 == old(s.reaccessThrottle) && (rangeidx1 == 0 ==> arg0 == cbs[0] && s.flags & flagAccessStale == 0)
 //@   safety[C15]
 //@   loop 1 assume s.c != nil && predConnOK(s.c.(*wsConn))
 //@   loop 1 invariant callcount("loadAccess") == old(callcount("loadAccess")) + rangeidx1
 //@   loop 1 invariant rangeidx1 == 0 ==> s.flags & flagAccessStale == 0 && s.accessCallbacks == nil
+//@   loop 1 invariant t == old(s.reaccessThrottle) && (t != nil ==> rescache.predThrottleInv(t))
+//@   loop 1 invariant old(s.access) == nil ==> s.access == nil && (old(s.flags & flagReaccess) != 0 ==> s.reaccessThrottle == old(s.reaccessThrottle))
 
 //@ func (*Subscription).CanGet
 //@   requires s != nil && s.c != nil && predConnOK(s.c.(*wsConn))
